@@ -190,7 +190,8 @@ class Preservative:
                         Lost_Code_TXT_filename = outputfile + ".LostCode.txt"
                         if not Lost_Code_TXT_filename in filenames_to_lines:
                             filenames_to_lines[Lost_Code_TXT_filename] = []
-                        filenames_to_lines[Lost_Code_TXT_filename].append(outputfile + "\n")
+                        # label with the file name (the LostCode file sits next to it), not with the caller's spelling of the path
+                        filenames_to_lines[Lost_Code_TXT_filename].append(os.path.basename(outputfile) + "\n")
                         filenames_to_lines[Lost_Code_TXT_filename].append(tag + "\n")
                         for i in self.preserved_tags_per_file[outputfile][tag]:
                             filenames_to_lines[Lost_Code_TXT_filename].append(i + "\n")
